@@ -14,23 +14,25 @@ type fragmentationContext struct {
 	currentIndex, currentLen uint16
 }
 
-func min(l, r uint16) uint16 {
+func min(l, r int) int {
 	if l < r {
 		return l
 	}
 	return r
 }
 
-func fragmentStart(i, fraglen uint16) uint16 {
-	return uint16(i * fraglen)
+func fragmentStart(i, fraglen int) int {
+	return i * fraglen
 }
 
-func fragmentEnd(i, fraglen, l uint16) uint16 {
-	return uint16(min((i+1)*fraglen, l))
+func fragmentEnd(i, fraglen, l int) int {
+	return min((i+1)*fraglen, l)
 }
 
-func fragmentData(data []byte, i int, fraglen, l uint16) []byte {
-	return data[fragmentStart(uint16(i), fraglen):fragmentEnd(uint16(i), fraglen, l)]
+// fragmentData returns piece i; the arithmetic is done on ints since an
+// encoded message can be longer than 65535 bytes
+func fragmentData(data []byte, i int, fraglen, l int) []byte {
+	return data[fragmentStart(i, fraglen):fragmentEnd(i, fraglen, l)]
 }
 
 // SetFragmentSize sets the maximum size for a message fragment.
@@ -58,7 +60,7 @@ func (c *Conversation) fragment(data encodedMessage, fraglen uint16) []ValidMess
 	ret := make([]ValidMessage, numFragments)
 	for i := 0; i < numFragments; i++ {
 		prefix := c.version.fragmentPrefix(i, numFragments, c.ourInstanceTag, c.theirInstanceTag)
-		ret[i] = append(append(prefix, fragmentData(data, i, realFraglen, uint16(l))...), fragmentSeparator[0])
+		ret[i] = append(append(prefix, fragmentData(data, i, int(realFraglen), l)...), fragmentSeparator[0])
 	}
 	return ret
 }
